@@ -35,7 +35,8 @@ EXPLANATION = (
     'a computation admits no class the computation asserts/raises on. R4: sibling p_error '
     'functions agree on handling None (end of input). R5: every InvalidSpec(...) has a message '
     'and location arguments; cli.main converts InvalidSpec to `path:line: error: msg` and '
-    'exit 1. Frontend asserts about internal invariants are listed, not judged.')
+    'exit 1. Frontend asserts about internal invariants are listed, not judged.'
+    ' RD (decision drift, stonelint.conddrift): the tests of the functions this property is anchored in (stonelint.ownership) are compared with reference/conditions.json; a relation, polarity or connective changed over the same operands, or an operand purely added or dropped, is a violation; re-spellings and new or removed tests are not claimed.')
 ASSUMPTIONS = [
     'the kinds of values stored in an Environment are the six store sites of ir_generator plus '
     'the built-in type classes of default_env (re-checked every run; a new store kind is an '
@@ -278,6 +279,10 @@ def run(pm, ctx):
     parse_result_guard(pm, ctx)
     parser_invariants(pm, ctx)
     invalid_spec_objects(pm, ctx, reach)
+
+    from ..conddrift import run_decisions
+    from ..ownership import OWN
+    run_decisions(pm, ctx, 'C03-RD', OWN['C03'])
 
 
 def construct(site):
